@@ -42,6 +42,35 @@ def gen(tier, rng):
                                                 src_lay=lay_with_guard(slay, guard) if slay else None,
                                                 dst_lay=lay_with_guard(dlay, guard) if dlay else {"k": "image"}, api=api, log=("digest",),
                                                 chk=("pipeline", "ret_ok", "outside", "srcsame") + (("memo_exact",) if j else ()), g=g))
+    # Nearest at geometries where a row (column) centre falls exactly on a pixel boundary although the scale is not a
+    # binary fraction: there the chosen row is decided by the last bit of a floating-point expression, so containers whose
+    # row iterators evaluate the position differently would disagree (the tie itself may go either way -- C11 -- but all
+    # containers must make the same choice)
+    ties = []
+    for sh in range(2, 25):
+        for dh in range(2, 25):
+            if sh == dh or (sh * 64) % dh == 0:
+                continue
+            if any(((2 * i + 1) * sh) % (2 * dh) == 0 for i in range(2, dh)):
+                ties.append((sh, dh))
+    if tier == "quick":
+        ties = [ties[rz.pick(k, 128, range(len(ties)))] for k in range(14)]
+    for k, (sh, dh) in enumerate(ties):
+        for pt in (("U8", "U16x3", "F32x4") if tier == "quick" else ("U8", "U8x4", "U16x3", "F32x4", "I32")):
+            n += 1
+            g += 1
+            sw, dw = rz.pick(n, 129, [(3, 5), (7, 2), (4, 4), (2, 7)])
+            # the same tie-prone pair along x for every other case
+            if n % 2:
+                sw, dw = sh, dh
+            seed = rng.randint(1, 10 ** 9)
+            layouts = [("dyn", p) for p in DYN_PAIRS + EXTRA_DYN] + [("typed", p) for p in TYPED_PAIRS + EXTRA_TYPED]
+            for j, (api, (slay, dlay)) in enumerate(layouts):
+                cases.append(rz.resize_case(pt, sw, sh, dw, dh, alg="nearest", alpha=False, cpu=rz.pick(n, 126, rz.CPUS),
+                                            src_c={"g": "rand", "seed": seed, "flo": 0.0, "fhi": 1.0},
+                                            src_lay=lay_with_guard(slay, 1) if slay else None,
+                                            dst_lay=lay_with_guard(dlay, 1) if dlay else {"k": "image"}, api=api, log=("digest",),
+                                            chk=("pipeline", "ret_ok", "outside", "srcsame") + (("memo_exact",) if j else ()), g=g))
     if tier != "quick":
         for i in range(1500):
             kw = rz.random_resize_kw(rng)
